@@ -127,6 +127,29 @@ G_NESTED2 = NestedGrammar(keys=("a", "b"), dict_max=2, max_len=2)
 G_NESTED4 = NestedGrammar(keys=("a", "b", "c", "d"), dict_max=3, max_len=2, outer=("list", "tuple"))
 
 
+class GrammarSeq:
+    """A different grammar per value position (value i is built from grammars[min(i, last)])."""
+
+    def __init__(self, *grammars):
+        self.grammars = grammars
+        self.max_size = max(g.max_size for g in grammars)
+        self.depth = 2
+
+    def for_index(self, i):
+        return self.grammars[min(i, len(self.grammars) - 1)]
+
+    def tape_len(self):
+        return max(g.tape_len() for g in self.grammars)
+
+    def describe(self):
+        return {"per_value": [g.describe() for g in self.grammars]}
+
+
+# value 0: lists of <= 2 dicts over {a, b} (+ int elements); value 1: lists of <= 1 dict over {a, c, d}:
+# the second merge adds NEW keys to TypedDicts that already carry optional fields
+G_NESTEDX = GrammarSeq(NestedGrammar(keys=("a", "b"), dict_max=2, max_len=2), NestedGrammar(keys=("a", "c", "d"), dict_max=2, max_len=1, extras=()))
+
+
 def build_value(t: Tape, g, depth=None, top=True):
     if hasattr(g, "build"):
         return g.build(t)
